@@ -37,7 +37,12 @@ def build_and_test(wt):
 def run_demo(wt, d):
     script = os.path.join(d, "run_demo.sh")
     if os.path.exists(script):
-        return sh(f"bash {script}", wt, timeout=1200)
+        rc, out = sh(f"bash {script}", wt, timeout=1200)
+        import re
+        m = re.findall(r"exit code: *(-?\d+)", out)  # several scripts print the demo's exit code and return 0
+        if rc == 0 and m:
+            rc = int(m[-1])
+        return rc, out
     return sh(f"g++ -std=c++17 -g -I include -I _build/src -I include/foonathan/memory {d}/demo.cpp _build/src/libfoonathan_memory-*.a -pthread -o {d}/demo.bin && {d}/demo.bin", wt)
 
 
